@@ -254,6 +254,118 @@ theorem V2c.terminates (st : V2c M O) (hc : st.closed = true) : ∃ n, (V2c.task
           exact ⟨n + 1, hn⟩
   exact this _ st hc rfl
 
+/-! ### without further publications the port task reaches its parking point -/
+
+/-- `n` steps of the plain port task -/
+def V2.tasks : Nat → V2 M O → V2 M O
+  | 0, st => st
+  | n + 1, st => V2.tasks n st.task.1
+
+/-- (eventually complete) From ANY state, if nothing more is enqueued, the port task parks with
+an empty channel after finitely many of its own steps — whatever the subscribers do meanwhile
+costs no step. At that point `Inv.exact` applies: every registered subscription is complete. -/
+theorem V2.reaches_idle (st : V2 M O) : ∃ n, (V2.tasks n st).idle = true := by
+  have : ∀ m, ∀ st : V2 M O, st.closeMeasure = m → ∃ n, (V2.tasks n st).idle = true := by
+    intro m
+    induction m using lexClose_wf.induction with
+    | _ m ih =>
+      intro st hm
+      cases hi : st.idle with
+      | true => exact ⟨0, hi⟩
+      | false =>
+        have hlt := task_closeMeasure st hi
+        rw [hm] at hlt
+        obtain ⟨n, hn⟩ := ih _ hlt st.task.1 rfl
+        exact ⟨n + 1, hn⟩
+  exact this _ st rfl
+
+theorem V2.tasks_eq_run (n : Nat) (st : V2 M O) : V2.tasks n st = st.run (List.replicate n .task) := by
+  induction n generalizing st with
+  | zero => rfl
+  | succ n ih => simp only [V2.tasks, List.replicate_succ, V2.run, List.foldl_cons] at ih ⊢; rw [ih]; rfl
+
+/-- `n` iterations of forwarding task `i` of the plain v1 port -/
+def V1.tasks : Nat → V1 M O → Nat → V1 M O
+  | 0, st, _ => st
+  | n + 1, st, i => V1.tasks n (st.task i).1 i
+
+/-- the forwarding task of subscription `i` has nothing to do: it has returned, or it has
+consumed everything stored -/
+def V1.settled (st : V1 M O) (i : Nat) : Bool :=
+  match st.fwds[i]? with
+  | some f => f.ended || decide (st.log.length ≤ f.cursor)
+  | none => true
+
+theorem V1.task_progress (st : V1 M O) (i : Nat) (f : Fwd M O) (hfi : st.fwds[i]? = some f)
+    (he : f.ended = false) (hlt : f.cursor < st.log.length) :
+    (st.task i).1.log = st.log ∧
+      ∃ f', (st.task i).1.fwds[i]? = some f' ∧ (f'.ended = true ∨ f.cursor < f'.cursor) := by
+  refine ⟨(task1_frame st i).1, ?_⟩
+  have hi : i < st.fwds.length := (List.getElem?_eq_some_iff.mp hfi).1
+  simp only [V1.task, hfi]
+  refine ⟨(f.step st.cap st.log st.dead).1, by simp [hi], ?_⟩
+  simp only [Fwd.step, he, Bool.false_eq_true, ↓reduceIte]
+  split
+  · right; simp only; omega
+  · have : st.log[f.cursor]? = some st.log[f.cursor] := List.getElem?_eq_getElem hlt
+    rw [this]
+    simp only
+    split
+    · split
+      · left; rfl
+      · right; simp
+    · split
+      · left; rfl
+      · right; simp
+
+/-- (eventually caught up, v1) Without further publications every forwarding task returns or
+catches up with the ring after finitely many of its own iterations; then `FwdOk.recent` applies. -/
+theorem V1.reaches_settled (st : V1 M O) (hinv : Inv1 st) (i : Nat) :
+    ∃ n, (V1.tasks n st i).settled i = true := by
+  have : ∀ k, ∀ st : V1 M O, Inv1 st → (∀ f, st.fwds[i]? = some f → st.log.length - f.cursor ≤ k) →
+      ∃ n, (V1.tasks n st i).settled i = true := by
+    intro k
+    induction k with
+    | zero =>
+      intro st _ hk
+      refine ⟨0, ?_⟩
+      cases hfi : st.fwds[i]? with
+      | none => simp [V1.tasks, V1.settled, hfi]
+      | some f =>
+        have h0 := hk f hfi
+        have : st.log.length ≤ f.cursor := by omega
+        simp [V1.tasks, V1.settled, hfi, this]
+    | succ k ih =>
+      intro st hinv hk
+      cases hs : st.settled i with
+      | true => exact ⟨0, hs⟩
+      | false =>
+        simp only [V1.settled] at hs
+        cases hfi : st.fwds[i]? with
+        | none => rw [hfi] at hs; simp at hs
+        | some f =>
+          rw [hfi] at hs
+          simp only [Bool.or_eq_false_iff, decide_eq_false_iff_not, Nat.not_le] at hs
+          obtain ⟨hlog, f', hf', hprog⟩ := V1.task_progress st i f hfi hs.1 hs.2
+          rcases hprog with he | hlt
+          · exact ⟨1, by simp [V1.tasks, V1.settled, hf', he]⟩
+          · have hinv' : Inv1 (st.task i).1 := inv1_task i hinv
+            obtain ⟨n, hn⟩ := ih (st.task i).1 hinv' (by
+              intro g hg
+              rw [hf'] at hg
+              cases hg
+              have hk' := hk f hfi
+              rw [hlog]
+              omega)
+            exact ⟨n + 1, hn⟩
+  exact this (st.log.length) st hinv (fun f _ => by omega)
+
+theorem V1.tasks_eq_run (n : Nat) (st : V1 M O) (i : Nat) :
+    V1.tasks n st i = st.run (List.replicate n (.task i)) := by
+  induction n generalizing st with
+  | zero => rfl
+  | succ n ih => simp only [V1.tasks, List.replicate_succ, V1.run, List.foldl_cons] at ih ⊢; rw [ih]; rfl
+
 /-! ### which calls count: exactly those made before the drop -/
 
 /-- the API calls of an op list that reach the port: those before the first `drop` -/
